@@ -97,4 +97,23 @@ PROPS = {
             "float equality uses the engine's DBL_EPSILON tolerance; string ordering is bytewise with length tie-break",
         ],
     },
+    "C05": {
+        "src": "c05", "engine": "rc", "level": "exploration",
+        "technique": "differential property-based testing (rapidcheck): the same rule compiled in different company / order / source distribution must give identical matches",
+        "level_text": ("Generated rule sets (text, hex and regexp strings built around shared byte material so that atoms, "
+                       "automaton prefixes/suffixes and pooled literals coincide; namespaces; global/private rules; rule "
+                       "references; imports) are compiled as a whole and in four variants - the target rule with only its "
+                       "reference closure, a reference-respecting permutation, a prefix of the set, and the same namespace "
+                       "text cut into several add_string/add_bytes/add_file/add_fd calls and nested includes - and every "
+                       "rule's verdict and per-string match list must be identical on every buffer. No model is involved."),
+        "level_note": ("Trusts only the shim; global rules of a namespace are always kept together (the property excludes "
+                       "adding one); rule sets <= 10 rules / 40 strings in quick tier; exploration bounded by case count."),
+        "quick": (1500, 45), "thorough": (60000, 600),
+        "floor": 100,
+        "rule": ("case = generated rule set of 1-10 rules in 1-3 namespaces (strings share 1-4 pooled byte sequences) + "
+                 "1-3 buffers built from the strings' instances; 4 variant compilations per case. Non-trivial: >= 2 rules, "
+                 "the target rule has strings, other rules have strings too (shared material) and the target has >= 1 "
+                 "string match on >= 1 buffer; distinct by hash of (all rule text, buffers, variant choices)."),
+        "assumptions": ["identical match lists are required including reported lengths of variable-length strings"],
+    },
 }
